@@ -810,7 +810,7 @@ void CheckFunctions::useStandardLibrary()
         }
 
 
-        const static std::string memsetName = tok->isCpp() ? "std::memset" : "memset";
+        const std::string memsetName = tok->isCpp() ? "std::memset" : "memset";
         // ((char*)dst)[i] = 0;
         if (Token::Match(tok, "{ ( ( uint8_t|int8_t|char|void * ) (| %var% ) )| [ %varid% ] = %char%|%num% ; }", idxVarId)) {
             useStandardLibraryError(tok->next(), memsetName);
